@@ -153,12 +153,13 @@ type runSpec struct {
 	EOFWith  bool
 	FailAt   int // -1: no fault; otherwise the source fails (sticky) once this many bytes were delivered
 	FailWith bool
-	FailErr  int // index into vk.FaultErrors: which error value the source fails with
+	FailErr  int  // index into vk.FaultErrors: which error value the source fails with
+	FailOnce bool // the source reports the error from one Read call only and would deliver the rest afterwards
 	Cons     []int
 }
 
 func (r runSpec) String() string {
-	return fmt.Sprintf("%s src=%v eofWith=%v failAt=%d failWith=%v failErr=%d cons=%v", r.Unwrap, r.Src, r.EOFWith, r.FailAt, r.FailWith, r.FailErr, r.Cons)
+	return fmt.Sprintf("%s src=%v eofWith=%v failAt=%d failWith=%v failErr=%d failOnce=%v cons=%v", r.Unwrap, r.Src, r.EOFWith, r.FailAt, r.FailWith, r.FailErr, r.FailOnce, r.Cons)
 }
 
 // inKnownClass recognises, from the bytes alone (reference parser, no kit code),
@@ -214,7 +215,7 @@ func firstDiff(a, b []byte) int {
 // on; or the stream yields exactly the original plaintext. With an injected
 // source fault an error must surface and the output must be a prefix.
 func judge(journal string, d *baseDoc, mutated []byte, validHdrs [][]byte, r runSpec) (what, detail string, outLen int, rejectedBy string) {
-	src := &vk.ScriptReader{Data: mutated, Chunks: r.Src, EOFWith: r.EOFWith, FailAt: r.FailAt, FailWith: r.FailWith, Err: vk.FaultErrors[r.FailErr%len(vk.FaultErrors)]}
+	src := &vk.ScriptReader{Data: mutated, Chunks: r.Src, EOFWith: r.EOFWith, FailAt: r.FailAt, FailWith: r.FailWith, FailOnce: r.FailOnce, Err: vk.FaultErrors[r.FailErr%len(vk.FaultErrors)]}
 	out, callErr, streamErr := enckit.Decrypt(journal, src, enc.DecryptOptions{UnwrapKeyFn: r.Unwrap.fn()}, r.Cons)
 	changed := !bytes.Equal(mutated, d.all) || !bytes.Equal(r.Unwrap.yields(d.man.WFK), d.fileKey)
 	fault := r.FailAt >= 0 && r.FailAt <= len(mutated)
